@@ -494,6 +494,14 @@ func (prop) Run(t *testing.T, tape *kernel.Tape, sc kernel.Scenario) *kernel.Res
 	followUp := scheme == "bearer" && tape.Bool(2, "follow-up-call-other-scopes")
 	ctx := middleware.NewContext(doc, u, nil)
 	handler := ctx.APIHandler(nil)
+	switch tape.Weighted("server-door", 3, 1, 1, 1) {
+	case 1:
+		handler = middleware.Serve(doc, u)
+	case 2:
+		handler = middleware.ServeWithBuilder(doc, u, middleware.PassthroughBuilder)
+	case 3:
+		handler = ctx.APIHandlerSwaggerUI(nil)
+	}
 
 	var (
 		code        int
